@@ -14,7 +14,7 @@ def call : CallRecord :=
                (.pgtol, .param .convCrit),
                (.maxiter, .param .nSteps),
                (.maxls, .lit (40) 1)]
-    argsNoneBecomesEmpty := false
+    argsNoneBecomesEmpty := true
     singleCall := true
     returns := [.calleeResult 0, .calleeResult 1, .calleeResult 2] }
 end TopSearch.Gen.Lbfgs
